@@ -21,7 +21,8 @@ class KnownFindingWitnesses(unittest.TestCase):
     def test_witnesses_reproduce(self):
         files = sorted(glob.glob(os.path.join(ROOT, "findings", "*.json")))
         self.assertTrue(files)
-        known = {f["id"] for f in runner.load_findings() if f.get("status") == "known"}
+        findings = runner.load_findings()
+        known = {f["id"] for f in findings if f.get("status") == "known"}
         for path in files:
             fid = os.path.basename(path)[:-5]
             if fid not in known:
@@ -33,9 +34,10 @@ class KnownFindingWitnesses(unittest.TestCase):
                 mons = [runner.resolve(n) for n in body.get("monitors") or []]
                 prior = [body["pair"]] if body.get("pair") else None
                 _, found = ex.run_path(scn, cfg, mons, body["history"], prior=prior)
-                want = (body["property"], body["kind"], json.dumps(body.get("sig", {}), sort_keys=True))
-                got = [(f["property"], f["kind"], json.dumps(f.get("sig", {}), sort_keys=True)) for f in found]
-                self.assertIn(want, got)
+                # the replay must raise a violation that the runner classifies as this very finding
+                # (signatures may have gained attributes since the witness was written)
+                ids = [(runner.match_finding(f, findings) or {}).get("id") for f in found]
+                self.assertIn(fid, ids, msg=[(f["property"], f["kind"], f.get("sig")) for f in found])
 
 
 if __name__ == "__main__":
